@@ -8,7 +8,12 @@ for d in sorted(os.listdir(os.path.join(HERE, 'seeded'))):
     if not os.path.exists(mp):
         continue
     m = json.load(open(mp))
-    rep = '; '.join('%s (%s)' % (k, ', '.join(v)) for k, v in sorted(m['reported_by'].items()) if not (v and v[0].startswith('ANALYSIS')))
+    own = m['breaks_property']
+    items = sorted(m['reported_by'].items(), key=lambda kv: (kv[0] != own, kv[0]))
+    rep = '; '.join('%s%s (%s)' % ('**' if k == own else '', k + ('**' if k == own else ''), ', '.join(v)) for k, v in items if not (v and v[0].startswith('ANALYSIS')))
+    broken = [k for k, v in items if v and v[0].startswith('ANALYSIS')]
+    if not rep and broken:
+        rep = '— exit 2 (analysis broken, no verdict) in ' + ', '.join(broken)
     first = ''
     pd = os.path.join(HERE, 'seeded', d, 'patch.diff')
     files = sorted(set(re.findall(r'^\+\+\+ b/(\S+)', open(pd).read(), re.M)))
@@ -17,7 +22,8 @@ tbl = '| seed | file(s) | needs, in order to manifest | reported by (property: r
 for r in rows:
     tbl += '| %s | %s | %s | %s |\n' % r
 det = sum(1 for r in rows if not r[3].startswith('—'))
-tbl += '\n%d of %d seeded changes are reported by at least one registered check.\n' % (det, len(rows))
+own_det = sum(1 for r in rows if r[3].startswith('**'))
+tbl += '\n%d of %d seeded changes are reported (exit 1, VIOLATION line) by at least one registered check, %d of them by the check of the property they were seeded against (bold).\n' % (det, len(rows), own_det)
 open(os.path.join(HERE, 'seeded', 'README.md'), 'w').write('# Seeded changes\n\nEach directory: patch.diff, demo.c, notes.txt (the sub-agent\'s own description), confirm.txt, meta.json.\n`benign/` holds behaviour-preserving refactorings that must raise no alarm (devtools/benign.sh).\n\n' + tbl)
 p = os.path.join(HERE, 'DESIGN.md')
 s = open(p).read()
